@@ -1,6 +1,7 @@
 package vc
 
 import (
+	"io"
 	"fmt"
 	"net"
 	"os"
@@ -137,6 +138,28 @@ func (c *Child) LogTail(n int) string {
 	if len(b) > n {
 		b = b[len(b)-n:]
 	}
+	return string(b)
+}
+
+// LogSize / LogFrom: incremental access to the child's log file.
+func (c *Child) LogSize() int64 {
+	st, err := os.Stat(c.LogPath)
+	if err != nil {
+		return 0
+	}
+	return st.Size()
+}
+
+func (c *Child) LogFrom(off int64) string {
+	f, err := os.Open(c.LogPath)
+	if err != nil {
+		return ""
+	}
+	defer f.Close()
+	if _, err := f.Seek(off, 0); err != nil {
+		return ""
+	}
+	b, _ := io.ReadAll(io.LimitReader(f, 4<<20))
 	return string(b)
 }
 
